@@ -610,7 +610,8 @@ def _merge_idioms(fn: FuncInfo) -> List[Tuple[str, str, ast.AST]]:
                         if isinstance(s3, ast.Assign) and len(s3.targets) == 1 and isinstance(s3.targets[0], ast.Subscript) \
                                 and isinstance(s3.targets[0].value, ast.Name) and ast.dump(s3.targets[0].slice) == ast.dump(tg.slice) \
                                 and isinstance(s3.value, ast.BinOp) and isinstance(s3.value.op, (ast.Add, ast.Sub)) \
-                                and ast.dump(s3.value.left) == ast.dump(tg.slice):
+                                and (ast.dump(s3.value.left) == ast.dump(tg.slice)
+                                     or (isinstance(s3.value.op, ast.Add) and ast.dump(s3.value.right) == ast.dump(tg.slice))):
                             out.append((tg.value.id, s3.targets[0].value.id, loop))
     return out
 
